@@ -42,6 +42,8 @@ def run(an: Analysis, rep):
     rep.run(c02.r026, an, shx)
     rep.run(c02.r027, an, shx)
     rep.run(c02.r028, an, shx)
+    rep.run(c02.r02f, an, SharedRules(rep, "R13.F", "the decoder's instruction function folded over witness code units (shared with C02's R02.F): the blocks it returns begin exactly at "
+                                                   "offset 0 and at the jump targets, none is empty, every jump holds the index of the block at its target"))
     rep.stats.update(an.stats([an.interp("from_code")[0]]))
     rep.assumptions += ["compiler output never jumps into the middle of an EXTENDED_ARG sequence (CPython's assembler targets the first unit)"]
 
@@ -105,7 +107,9 @@ def r136(an: Analysis, rep, rule="R13.6"):
         return False
     # instructions at 0, 2, 4 (two code units: 4..8), 8; code is 10 bytes long
     offs, size = [0, 2, 4, 8], 10
-    W = [({0}, False), ({0, 4}, False), ({0, 8, 2}, False), ({0, 6}, True), ({0, 10}, True), ({0, 4, 6}, True)]
+    W = [({0}, False), ({0, 4}, False), ({0, 8, 2}, False), ({0, 6}, True), ({0, 10}, True), ({0, 4, 6}, True),
+         # byte offsets that are not even a code unit (3.7-3.9 jump operands count bytes), or lie before the code
+         ({0, 3}, True), ({0, 5, 8}, True), ({0, 9}, True), ({0, -2}, True), ({0, 12}, True)]
     bad = []
     try:
         for targets, want in W:
@@ -119,10 +123,10 @@ def r136(an: Analysis, rep, rule="R13.6"):
         bad.append(([0], False, True))
     missed = [b for b in bad if b[1]]
     rep.add(rule, f"{f.qual}::targets inside an instruction or past the end are rejected", not bad, loc(f.module, between[0] if between else loop1),
-            f"instructions at {offs} (the one at 4 has an EXTENDED_ARG prefix), code of {size} bytes: targets 6 and 10 raise, targets at instruction starts (and empty code) do not" if not bad else
-            (f"with instructions at {offs} (the one at 4 has an EXTENDED_ARG prefix, its opcode sits at 6) a jump to {[t for t in missed[0][0] if t not in offs]} is accepted: CPython executes "
-             f"such a jump (hand-written bytecode; with a zero prefix it behaves like the jump to 4), but no block starts there - the jump gets the index of a block that does not exist or of "
-             f"another block, and to_code() of the returned data raises KeyError or jumps elsewhere" if missed else
+            f"instructions at {offs} (the one at 4 has an EXTENDED_ARG prefix), code of {size} bytes: targets 6, 10, 12, odd offsets and -2 raise, targets at instruction starts (and empty code) do not" if not bad else
+            (f"with instructions at {offs} (the one at 4 has an EXTENDED_ARG prefix, its opcode sits at 6) a jump to {[t for t in missed[0][0] if t not in offs]} is accepted (hand-written "
+             f"bytecode: behind a prefix, past the end, before the code, or - 3.7-3.9 count bytes - in the middle of a code unit), but no block starts there - the jump gets the index of a "
+             f"block that does not exist or of another block, and to_code() of the returned data raises KeyError or jumps elsewhere" if missed else
              f"jump targets {bad[0][0]} at instruction starts make from_code raise"))
 
 def block_rules(an: Analysis, rep):
